@@ -444,7 +444,7 @@ def run_case(ctx, case):
                     ops[step[0]]()
                 continue
             r = rng.random()
-            if w.alive and not w.write_closed and w.lc_mark is None and r < 0.02:
+            if w.alive and not w.write_closed and w.lc_mark is None and r < 0.012:
                 # half close requested and full close with bytes still buffered, both orders, with
                 # partial acceptance and writes in between (needs several steps in a row)
                 ctx.count("halfclose_close_scripts")
